@@ -9,6 +9,10 @@
 // from another, already used object (clone / SSRB(ProjDataInfo&,...) / public setters); all clauses run on the derived object, and
 // it must equal (operator==) the fresh twin constructed directly with the final parameters and map every detector pair and ring
 // pair as the twin does.
+// Aliasing (c12_history.h (iv)): about half of the histories additionally KEEP objects (the original of a clone / SSRB call, side
+// copies made by clone / create_shared_clone / copy constructor / copy assignment / create_non_tof_clone) while the other object is
+// changed with the setters and used; every kept object must afterwards still equal, and answer on the whole API of the property like,
+// a fresh twin of its OWN settings that was built on its own Scanner object and never copied.
 #include "stir_gen.h"
 #include "c12_history.h"
 #include "stir/ProjDataInfoCylindricalNoArcCorr.h"
@@ -331,15 +335,17 @@ check(const json& c)
   if (!dynamic_cast<const ProjDataInfoCylindricalNoArcCorr*>(pdi.get()) && !dynamic_cast<const ProjDataInfoGenericNoArcCorr*>(pdi.get()))
     return Result::reject("not a no-arc-correction geometry");
   // ---- object history: the object under test is derived from another, used object; pdi (constructed directly) is its fresh twin ----
-  if (c.contains("hist") && c["hist"].is_object())
+  // (the history works on its OWN Scanner object: the fresh twin shares nothing with the objects of the history)
+  const bool with_history = c.contains("hist") && c["hist"].is_object();
+  shared_ptr<Scanner> sc_hist;
+  shared_ptr<ProjDataInfo> fresh = pdi;
+  vh::Alias al;
+  vh::DiffOpts o;
+  if (with_history)
     {
       const json& h = c["hist"];
-      shared_ptr<ProjDataInfo> fresh = pdi, derived;
-      const Result rd = vh::derive(derived, sc, h, c["pdi"]["trim"], json());
-      if (rd.failed())
-        return rd;
-      vh::count_history_classes(h);
-      vh::DiffOpts o;
+      shared_ptr<ProjDataInfo> derived;
+      sc_hist = vg::make_scanner(c["scanner"]);
       o.ring_stride = c.value("ring_stride", 1);
       o.det_stride = c.value("det_stride", 1);
       o.all_pairs = true;
@@ -348,6 +354,16 @@ check(const json& c)
       // clauses of the property itself always visit all bins of the derived object)
       o.view_stride = sc->get_num_detectors_per_ring() > 128 ? 5 : 1;
       o.ax_stride = sc->get_num_rings() > 16 ? 3 : 1;
+      // aliasing re-checks (c12_history.h (iv)): the same differential, on coarser sets of bins and detector pairs for all but the
+      // smallest scanners (the ring-pair tables and the ring pair -> (segment, axial position) map are always compared completely)
+      al.scanner_spec = c["scanner"];
+      vh::set_alias_opts(al, o, *sc);
+      if (sc->get_num_detectors_per_ring() > 128 || sc->get_num_rings() > 16)
+        al.opts.all_pairs = al.light.all_pairs = false; // (predefined scanners: the detector pairs of the corner ring pairs only)
+      const Result rd = vh::derive(derived, sc_hist, h, c["pdi"]["trim"], json(), &al);
+      if (rd.failed())
+        return rd;
+      vh::count_history_classes(h);
       const Result rt = vh::diff_twin(*derived, *fresh, o);
       if (rt.failed())
         return rt;
@@ -355,19 +371,39 @@ check(const json& c)
     }
   else
     stats().cls("history: none (fresh object)");
+  Result r = Result::reject("not a no-arc-correction geometry");
   if (auto p = dynamic_cast<const ProjDataInfoCylindricalNoArcCorr*>(pdi.get()))
     {
       stats().cls("cylindrical");
       if (p->is_tof_data())
         stats().cls("tof");
-      return check_config(*p, c);
+      r = check_config(*p, c);
     }
-  if (auto p = dynamic_cast<const ProjDataInfoGenericNoArcCorr*>(pdi.get()))
+  else if (auto p = dynamic_cast<const ProjDataInfoGenericNoArcCorr*>(pdi.get()))
     {
       stats().cls("blocks/generic");
-      return check_config(*p, c);
+      r = check_config(*p, c);
     }
-  return Result::reject("not a no-arc-correction geometry");
+  if (r.kind != Result::PASS || !with_history)
+    return r;
+  // ---- aliasing: every object that was kept while its copy / original was changed and used still answers like a fresh twin of its
+  // own settings; then the object under test once more (the re-checks rebuilt the lazy tables of the kept objects); the Scanner
+  // object of the history is unchanged
+  {
+    const Result ra = vh::recheck_all(al);
+    if (ra.failed())
+      return ra;
+    if (!al.kept.empty())
+      {
+        const Result rt = vh::diff_twin(*pdi, *fresh, al.light);
+        if (rt.failed())
+          return Result::fail("ALIASING: the object under test after the kept objects were re-checked :: " + rt.msg);
+      }
+    const Result rs = vh::scanner_unchanged(*sc_hist, c["scanner"]);
+    if (rs.failed())
+      return rs;
+  }
+  return r;
 }
 
 json
@@ -545,16 +581,18 @@ enumerate(uint64_t idx, int tier, json& c)
       src["views"] = ndet / 2;
       json ops = json::array();
       ops.push_back({ { "op", "use" }, { "mask", 31 } });
+      // ("keep": the original stays alive and is re-checked against a fresh twin of ITS settings after the copy was mashed and used
+      // by all clauses: aliasing clause of c12_history.h)
       if (mash == 1)
-        ops.push_back({ { "op", "clone" } });
+        ops.push_back({ { "op", "clone" }, { "keep", "k0" } });
       else if (idx % 4 == 1 || idx % 4 == 2)
-        ops.push_back({ { "op", "ssrb" }, { "nseg", 1 }, { "nviews", mash }, { "trim", 0 }, { "max_in_seg", -1 }, { "ntof", 1 } });
+        ops.push_back({ { "op", "ssrb" }, { "nseg", 1 }, { "nviews", mash }, { "trim", 0 }, { "max_in_seg", -1 }, { "ntof", 1 }, { "keep", "k0" } });
       else
         {
-          ops.push_back({ { "op", "shared_clone" } });
+          ops.push_back({ { "op", "shared_clone" }, { "keep", "k0" } });
           ops.push_back({ { "op", "set_num_views" }, { "views", ndet / 2 / mash } });
         }
-      c["hist"] = { { "src", src }, { "ops", ops }, { "route", mash == 1 ? "clone" : ((idx % 4 == 1 || idx % 4 == 2) ? "ssrb" : "setters") } };
+      c["hist"] = { { "src", src }, { "ops", ops }, { "route", mash == 1 ? "clone" : ((idx % 4 == 1 || idx % 4 == 2) ? "ssrb" : "setters") }, { "alias", true } };
     }
   return true;
 }
